@@ -97,6 +97,9 @@ func feeDrawCfg(rt *rapid.T) feeCfg {
 	cfg.GovEOA = rapid.Bool().Draw(rt, "govEOA")
 	cfg.BTP = cfg.Revision == 9 && rapid.IntRange(0, 2).Draw(rt, "btp") > 0
 	cfg.LegacyBalance = rapid.IntRange(0, 2).Draw(rt, "legacyBalanceCheck") == 0
+	if rapid.IntRange(0, 7).Draw(rt, "hangWorld") == 0 {
+		cfg.TimeoutMs = 200
+	}
 	return cfg
 }
 
@@ -107,6 +110,7 @@ type feeGen struct {
 	m       *feeModel // model at the start of the block being drawn
 	nonce   int
 	drained int // EOA that spends everything at the start of the block (-1: none)
+	hangs   int // hang operations drawn so far (each costs one transaction timeout of wall time)
 }
 
 func (g *feeGen) anyAddr(label string, withContracts bool) string {
@@ -144,6 +148,9 @@ func (g *feeGen) drawProg(target int, depth int, top bool) *feeProg {
 			kinds = append(kinds, feeOpCall, feeOpCall, feeOpCall, feeOpCall, feeOpCall)
 		}
 		kinds = append(kinds, feeOpSysCall)
+		if g.w.cfg.TimeoutMs > 0 && g.hangs < 3 {
+			kinds = append(kinds, feeOpHang, feeOpHang)
+		}
 		if g.w.cfg.NProg > 1 {
 			kinds = append(kinds, feeOpFlag)
 			if target == 0 {
@@ -185,6 +192,10 @@ func (g *feeGen) drawProg(target int, depth int, top bool) *feeProg {
 			o.Sub = g.drawProg(rapid.IntRange(0, g.w.cfg.NProg-1).Draw(rt, "subTarget"), depth+1, false)
 			o.Limit = int64(rapid.SampledFrom([]int{0, 0, 0, 0, 0, 1, 60, 400, 30000}).Draw(rt, "callLimit"))
 			o.Propagate = rapid.IntRange(0, 2).Draw(rt, "propagate") == 0
+		case feeOpHang:
+			g.hangs++
+			o.Key = rapid.IntRange(0, feeNKeys-1).Draw(rt, "key")
+			o.Val = g.smallBytes("val")
 		case feeOpSysCall:
 			o.Propagate = rapid.IntRange(0, 3).Draw(rt, "propagate") == 0
 		case feeOpFlag:
